@@ -25,11 +25,12 @@ ASSUMPTIONS = [
 def trace_lines(results, consts):
     """records of the harness -> TraceCodec lines; index[i] = (tu, case id, si, rep)"""
     lines, index = [], []
-    for k, exe, cs, rc, recs in results:
+    for k, exe, cs, crashes, recs in results:
         meta = {c["id"]: c for c in cs}
-        lines.append({"op": "reset"}); index.append((k, None, None, None))
         for r in recs:
-            if r.get("e") == "Stmt":
+            if r.get("e") == "Consts":      # a new process
+                lines.append({"op": "reset"}); index.append((k, None, None, None))
+            elif r.get("e") == "Stmt":
                 if r["case"] < 0:
                     continue
                 c = meta[r["case"]]
@@ -90,9 +91,13 @@ def validate(ck, results, consts, lines, index, depth=0):
     by_k = {r[0]: r for r in results}
     _, exe, cs, _, _ = by_k[k]
     case = next(c for c in cs if c["id"] == cid)
-    # the rejection must repeat when the case is run alone
-    rc2, recs2 = codec.run_bin(exe, only=[cid])
-    l2, i2 = trace_lines([(k, exe, cs, rc2, recs2)], consts)
+    # the rejection must repeat when the same sequence of cases (the unit up to and including this case: the thread's
+    # size cache carries state from one statement to the next) is executed again in a new process
+    only = codec.prefix_of(cs, cid)
+    rc2, recs2 = codec.run_bin(exe, only=only)
+    l2, i2 = trace_lines([(k, exe, cs, [], recs2)], consts)
+    keep = [j for j, ix in enumerate(i2) if ix[1] in (None, cid)]
+    l2, i2 = [l2[j] for j in keep], [i2[j] for j in keep]
     r2 = sysh.validate_trace("TraceCodec", "TraceCodec.cfg", l2)
     if r2.error:
         raise vlib.Infra(r2.error)
@@ -101,7 +106,7 @@ def validate(ck, results, consts, lines, index, depth=0):
         sg = sig_of(case, i2[r2.trace[-1]["l"] - 2][2], bad, consts)
         text = (f"case {cid} ({case['origin']}) statement types {case['stmts'][bad.get('si') or 0]['ctypes']} fmt "
                 f"{case['stmts'][bad.get('si') or 0]['fmt']!r}: observed {json.dumps({x: bad[x] for x in bad if x in ('reserved', 'hdr', 'dynb', 'tp', 'consumed', 'got', 'exp')})[:900]}")
-        ck.violation(sg, text, {"unit": f"{vlib.BUILD}/gen_codec/{_tu_name(ck, k)}", "case": cid, "cpp": case["cpp"],
+        ck.violation(sg, text, {"unit": f"{vlib.BUILD}/gen_codec/{_tu_name(ck, k)}", "case": cid, "only": only, "cpp": case["cpp"],
                                 "trace": l2, "rejected_line": r2.trace[-1]["l"] - 1, "exe": str(exe)})
     else:
         ck.drifted(f"rejection of case {cid} did not repeat in isolation")
@@ -138,12 +143,7 @@ def run(ck):
     prep = codec.prepare(ck)
     consts = prep["consts"]
     results = codec.build_and_run(ck, prep)
-    for k, exe, cs, rc, recs in results:
-        if rc == -9:
-            raise vlib.Infra(f"harness unit {k} timed out")
     lines, index = trace_lines(results, consts)
-    # crashed units: the cases after the crash were not observed; the crashing case is judged by re-running it alone
-    crashed = [(k, recs) for k, exe, cs, rc, recs in results if rc != 0]
     for c in prep["cases"]:
         for s in c["stmts"]:
             nontriv = any(k not in ("arith", "enum", "ptr") for k in s["kinds"])
@@ -167,31 +167,23 @@ def run(ck):
 
 
 def handle_crashes(ck, results, consts):
-    for k, exe, cs, rc, recs in results:
-        if rc == 0:
-            continue
-        seen = {r["case"] for r in recs if r.get("e") == "Stmt"}
-        begun = [r["case"] for r in recs if r.get("e") == "LogBegin"]
-        cid = begun[-1] if begun else (cs[0]["id"] if cs else None)
-        case = next((c for c in cs if c["id"] == cid), None)
-        if case is None:
-            raise vlib.Infra(f"harness unit {k} crashed before any case (rc={rc})")
-        rc2, recs2 = codec.run_bin(exe, only=[cid])
-        if rc2 != 0:
-            # the real code crashes on this input: no message = the contract's text clause is violated
-            sg = "crash:" + "+".join(case["stmts"][-1]["types"])
-            ck.violation(sg, f"case {cid}: process died (rc={rc2}) while logging/decoding {case['stmts'][-1]['ctypes']}",
-                         {"unit": _tu_name(ck, k), "case": cid, "cpp": case["cpp"], "exe": str(exe)})
-        # run the unobserved remainder one by one
-        rest = [c["id"] for c in cs if c["id"] not in seen and c["id"] != cid]
-        if rest:
-            rc3, recs3 = codec.run_bin(exe, only=rest)
-            l3, i3 = trace_lines([(k, exe, cs, rc3, recs3)], consts)
-            validate(ck, [(k, exe, cs, rc3, recs3)], consts, l3, i3)
+    """the process died while a case was logged / decoded: no message reached the sink, the text clause is violated
+    (if the death repeats when the same prefix of cases is executed again)"""
+    for k, exe, cs, crashes, recs in results:
+        for cid, prefix, rc, repeated in crashes:
+            case = next(c for c in cs if c["id"] == cid)
+            if not repeated:
+                ck.drifted(f"unit {k}: process died (rc={rc}) in case {cid} but not when the same cases were run again")
+                continue
+            sg = "crash:" + "|".join("+".join(s["types"]) for s in case["stmts"])
+            ck.violation(sg, f"case {cid} ({case['origin']}): process died (rc={rc}) while logging / decoding "
+                             f"{[s['ctypes'] for s in case['stmts']]} after cases {prefix[:-1][-3:]}",
+                         {"unit": _tu_name(ck, k), "case": cid, "only": prefix, "cpp": case["cpp"], "exe": str(exe)})
 
 
 def replay(ck, path):
     j = json.loads(open(path).read())["replay"]
-    rc, recs = codec.run_bin(j["exe"], only=[j["case"]])
+    rc, recs = codec.run_bin(j["exe"], only=j.get("only") or [j["case"]])
+    print(json.dumps({"exit_code_of_harness": rc}))
     for r in recs:
         print(json.dumps(r))
